@@ -501,3 +501,54 @@ T('c15-twin-reshape', 'C15', 'reshape instead of view in the linear A factor',
   (LM, "        a = a.view(-1, a.size(-1))\n        if self.has_bias():\n            a = append_bias_ones(a)\n        return get_cov(a)", "        a = a.reshape(-1, a.size(-1))\n        if self.has_bias():\n            a = append_bias_ones(a)\n        return get_cov(a)"))
 T('c15-twin-permute', 'C15', 'permute instead of two transposes',
   (LM, "        x = x.transpose_(1, 2).transpose_(2, 3).contiguous()", "        x = x.permute(0, 2, 3, 1, 4, 5).contiguous()"))
+
+# ---------------------------------------------------------------- C07
+M('c07-no-sqrt', 'C07', 'AFF-CLIP', 'sqrt dropped',
+  (BP, "        return min(1.0, math.sqrt(self.kl_clip / abs(vg_sum)))", "        return min(1.0, self.kl_clip / abs(vg_sum))"))
+M('c07-lr-not-squared', 'C07', 'AFF-CLIP', 'lr instead of lr**2 in the weight term',
+  (BP, "            vg_sum += (v1 * w * self.lr**2).sum().item()", "            vg_sum += (v1 * w * self.lr).sum().item()"))
+M('c07-no-abs', 'C07', 'AFF-CLIP', 'abs dropped',
+  (BP, "        return min(1.0, math.sqrt(self.kl_clip / abs(vg_sum)))", "        return min(1.0, math.sqrt(self.kl_clip / vg_sum))"))
+M('c07-bias-term-dropped', 'C07', 'AFF-CLIP', 'bias inner product not added',
+  (BP, "            if layer.module.has_bias():\n                vg_sum += (v2 * b * self.lr**2).sum().item()\n", ""))
+M('c07-max-for-min', 'C07', 'AFF-CLIP', 'max instead of min',
+  (BP, "        return min(1.0, math.sqrt(self.kl_clip / abs(vg_sum)))", "        return max(1.0, math.sqrt(self.kl_clip / abs(vg_sum)))"))
+M('c07-zero-returns-zero', 'C07', 'AFF-CLIP', 'zero inner product gives scale 0',
+  (BP, "        if vg_sum == 0.0:\n            return 1.0", "        if vg_sum == 0.0:\n            return 0.0"))
+M('c07-sum-reset-per-layer', 'C07', 'AFF-CLIP', 'accumulator reset inside the loop',
+  (BP, "            w = layer.module.get_weight_grad()\n", "            vg_sum = 0.0\n            w = layer.module.get_weight_grad()\n"))
+M('c07-stale-bias', 'C07', 'DEF-FLAGS', 'bias term guarded by leftover locals (seed C07-1)',
+  (BP, "        vg_sum = 0.0\n        for _, layer in reversed(list(self._layers.values())):", "        vg_sum = 0.0\n        b = None\n        v2 = None\n        for _, layer in reversed(list(self._layers.values())):"),
+  (BP, "            if layer.module.has_bias():\n                vg_sum += (v2 * b * self.lr**2).sum().item()", "            if b is not None and v2 is not None:\n                vg_sum += (v2 * b * self.lr**2).sum().item()"))
+M('c07-reject-none', 'C07', 'NULL-KL', 'revert of F1',
+  (BP, "        if (\n            kl_clip is not None\n            and not callable(kl_clip)\n            and not 0.0 < kl_clip\n        ):", "        if not callable(kl_clip) and not 0.0 < kl_clip:"))
+M('c07-scale-always', 'C07', 'NULL-KL', 'scale computed even when kl_clip is None',
+  (BP, "        scale = None if self.kl_clip is None else self._compute_grad_scale()", "        scale = self._compute_grad_scale()"))
+M('c07-gpt-no-clone', 'C07', 'ALIAS-GRAD', 'bias broadcast into the module gradient (seed C07-2)',
+  (GL, "                    assert bias_grad is not None\n                    bias_grad = bias_grad.clone()\n", "                    assert bias_grad is not None\n"))
+M('c07-gpt-inplace-scatter', 'C07', 'ALIAS-GRAD', 'revert of F6 (weight)',
+  (GL, "            grad_partition = torch.empty_like(grad_partition)\n", ""))
+T('c07-twin-sqrt-pow', 'C07', '(kl/|S|) ** 0.5',
+  (BP, "        return min(1.0, math.sqrt(self.kl_clip / abs(vg_sum)))", "        return min(1.0, (self.kl_clip / abs(vg_sum)) ** 0.5)"))
+T('c07-twin-reordered-product', 'C07', 'w * v1 * lr**2',
+  (BP, "            vg_sum += (v1 * w * self.lr**2).sum().item()", "            vg_sum += (w * v1 * self.lr**2).sum().item()"))
+
+# ---------------------------------------------------------------- C11
+M('c11-unbound-bias', 'C11', 'DEF-FLAGS', 'revert of F9',
+  (GL, "            if self.module.has_bias() and self.parallelism == 'output':\n                bias_grads = [\n                    torch.zeros_like(bias_grad_partition)", "            if self.parallelism == 'output':\n                bias_grads = [\n                    torch.zeros_like(bias_grad_partition)"))
+M('c11-gather-dim', 'C11', None, 'weight gradient gathered along the wrong dimension',
+  (GL, "            model_parallel_group=self.model_parallel_group,\n            dim=-1 if self.parallelism == 'input' else 0,\n        )\n\n        if self.module.has_bias():", "            model_parallel_group=self.model_parallel_group,\n            dim=0 if self.parallelism == 'input' else -1,\n        )\n\n        if self.module.has_bias():"))
+M('c11-split-dim', 'C11', None, 'preconditioned weight split along the wrong dimension',
+  (GL, "                    weight_grad,\n                    get_world_size(self.model_parallel_group),\n                    dim=-1 if self.parallelism == 'input' else 0,", "                    weight_grad,\n                    get_world_size(self.model_parallel_group),\n                    dim=0,"))
+M('c11-bcast-rank0', 'C11', 'COH-PRIMARY', 'bias broadcast from model-parallel rank 0 (seed C11-1)',
+  (GL, "                        src=self.primary_rank,\n                        group=self.model_parallel_group,", "                        src=torch.distributed.get_global_rank(self.model_parallel_group, 0),\n                        group=self.model_parallel_group,"))
+M('c11-shape-both-scaled', 'C11', 'TT-SHAPEFN', 'A shape scaled by mp for output-parallel layers too',
+  (GM, "        else:\n            x = dim1_size + int(self.has_bias())\n        return (x, x)", "        else:\n            x = (dim1_size * self.model_parallel_world_size) + int(self.has_bias())\n        return (x, x)"))
+M('c11-local-shard-moments', 'C11', 'DOM-GATHER', 'local input shard fed into the moments',
+  (GL, "            if a is not None:\n                super().save_layer_input([a])", "            if a is not None:\n                super().save_layer_input(input_)"))
+M('c11-dual-broken', 'C11', 'SIB-DUAL', 'G of an output-parallel layer reduced over the stage peers',
+  (GL, "            if get_rank() != self.primary_rank:\n                return\n            super().reduce_g_factor(self.data_parallel_group)", "            super().reduce_g_factor(self.pipe_parallel_peer_group)"))
+M('c11-no-primary-guard', 'C11', None, 'every rank reduces the sharded A factor on its data-parallel group',
+  (GL, "            if get_rank() != self.primary_rank:\n                return\n            super().reduce_a_factor(self.data_parallel_group)", "            super().reduce_a_factor(self.data_parallel_group)"))
+M('c11-reuse-mp-group', 'C11', 'GRP-REUSE', 'stage peer group replaced by the model-parallel group (seed C11-2)',
+  (GA, "            stage_peers: dict[int, list[int]] = {}\n            for r in range(topology.world_size()):\n                stage_peers.setdefault(topology.get_coord(r).pipe, []).append(r)\n            self.pipe_parallel_peer_group = None\n            for stage in sorted(stage_peers):\n                stage_group = dist.new_group(stage_peers[stage])\n                if stage == self.pipe_parallel_rank:\n                    self.pipe_parallel_peer_group = stage_group\n", "            self.pipe_parallel_peer_group = self.model_parallel_group\n"))
